@@ -31,7 +31,9 @@ type c07Scn struct {
 	Before    string   `json:"before"`   // constraint: point Before must have been passed ...
 	After     string   `json:"after"`    // ... before the goroutine reaching After proceeds ("" = free run)
 	ReadDelay int      `json:"readdelay_us"`
-	Expect    []string `json:"expect,omitempty"` // informational: what the model predicts
+	Expect    []string `json:"expect,omitempty"`    // informational: what the model predicts
+	Transport string   `json:"transport,omitempty"` // "" (scripted pipe) | telnet | standard : a built-in transport, see c07real.go
+	OnClose   bool     `json:"onclose,omitempty"`
 }
 
 type gate struct {
@@ -115,6 +117,10 @@ func libGoroutines(ignoreForeignRead bool) []string {
 }
 
 func c07One(sc *c07Scn, idx int) verdict {
+	if sc.Transport != "" {
+		return c07Real(sc, idx)
+	}
+
 	name := fmt.Sprintf("%s/%s/closes=%d/%s/%s<%s/rd=%d", sc.Driver, sc.State, sc.Closes, sc.CloseBeh, sc.Before, sc.After, sc.ReadDelay)
 	v := verdict{ID: idx, Variant: name, OK: true, Nontrivial: true}
 	sigBase := fmt.Sprintf("C07:%s:%s:closes=%d:%s", sc.Driver, sc.State, sc.Closes, sc.CloseBeh)
@@ -128,6 +134,10 @@ func c07One(sc *c07Scn, idx int) verdict {
 	}
 
 	cfg := sessCfg{connTimeout: 300 * time.Millisecond, readDelay: rd, seg: simdev.Seg{Mode: "rand", Max: 9}, seed: int64(idx), closeBeh: sc.CloseBeh}
+	if sc.State == "inflight" {
+		// the operation in flight must be ended by Close, not by its own timer
+		cfg.connTimeout = 5 * time.Second
+	}
 
 	var build func(c sessCfg) (*sess, error)
 
@@ -311,7 +321,7 @@ func c07One(sc *c07Scn, idx int) verdict {
 			raceSeen = len(b)
 
 			if strings.Contains(rep, "scrapligo/channel") || strings.Contains(rep, "scrapligo/driver") || strings.Contains(rep, "scrapligo/transport") {
-				loc := regexp.MustCompile(`/repo/([\w/]+\.go):\d+`).FindAllStringSubmatch(rep, 4)
+				loc := regexp.MustCompile(`/((?:channel|driver|transport|util|response|platform)/[\w/]+\.go):\d+`).FindAllStringSubmatch(rep, 4)
 				where := []string{}
 
 				for _, l := range loc {
